@@ -307,6 +307,7 @@ def coq_eval_failures(requires: Sequence[str], case_type: str, check_fn: str, ca
     Returns indices of cases for which it is false, and the concatenated logs.
     One coqc process per shard, run in parallel."""
     files = []
+    offsets: dict[str, int] = {}
     for k in range(0, len(cases), shard):
         part = cases[k:k + shard]
         name = f"{tag}_{k // shard}"
@@ -314,13 +315,15 @@ def coq_eval_failures(requires: Sequence[str], case_type: str, check_fn: str, ca
                 "Open Scope Z_scope."]
         body += [f"From {LOGICAL} Require Import {r}." for r in requires]
         body.append(f"Definition cs : list (nat * ({case_type})) := [")
-        body.append(";\n".join(f" ({k + i}%nat, {c})" for i, c in enumerate(part)))
+        # indices are local to the shard (nat literals are unary: large ones are slow); offset added below
+        body.append(";\n".join(f" ({i}%nat, {c})" for i, c in enumerate(part)))
         body.append("].")
         body.append(f"Definition bad := map fst (filter (fun c => negb ({check_fn} (snd c))) cs).")
         body.append("Eval vm_compute in (List.length cs, bad).")
         f = scratch / f"{name}.v"
         f.write_text("\n".join(body) + "\n")
         files.append(f)
+        offsets[f.name] = k
     procs = []
     logs = []
     failures: list[int] = []
@@ -346,7 +349,7 @@ def coq_eval_failures(requires: Sequence[str], case_type: str, check_fn: str, ca
             raise ModelEvalError(f.name, out)
         body = m.group(2).strip()
         if body:
-            failures += [int(re.sub(r"%nat", "", t).strip()) for t in body.split(";")]
+            failures += [offsets[f.name] + int(re.sub(r"%nat", "", t).strip()) for t in body.split(";")]
     return sorted(failures), "\n".join(logs)
 
 
